@@ -38,9 +38,15 @@ type verifOutcome struct {
 	ev  []byte
 }
 
-func (f *verifFullStack) invoke() *verifOutcome {
-	ev := verifNondetBytes("event payload")
-	verifAssume(len(ev) <= interop.MaxPayloadSize)
+func (f *verifFullStack) invoke() *verifOutcome { return f.invokeSized(false) }
+
+func (f *verifFullStack) invokeSized(big bool) *verifOutcome {
+	ev := verifNondetPayload("event payload")
+	if big {
+		verifAssume(len(ev) > interop.MaxPayloadSize)
+	} else {
+		verifAssume(len(ev) <= interop.MaxPayloadSize)
+	}
 	wr := newVerifWriter()
 	f.w.Note("caller", "invoke-begin", "")
 	err := f.s.Invoke(wr, &interop.Invoke{
@@ -341,5 +347,39 @@ func VerifFullInitError() {
 	rs := f.w.RuntimeResponses()
 	verifAssert(o2.err == nil && o2.wr.writes == 1 && len(rs) > 0 && string(o2.wr.body) == rs[len(rs)-1], "the following invocation is served by new processes")
 	f.w.CheckEventGrammar()
+	verifReach("scenario-done")
+}
+
+// C14: the response size limit is exact and an oversize response is survivable; oversize events
+// are cut at the limit, on every delivery.
+func VerifC14Oversize() {
+	f := newVerifFull(0, nil, [][]int{{rapid.VbOversize, rapid.VbRespond, rapid.VbNextTwice}}, 3000)
+	w := f.w
+	const limit = 6*1024*1024 + 100
+	verifAssert(interop.MaxPayloadSize == limit, "the limit is 6 MiB + 100 bytes")
+	// 1: response one byte or more over the limit
+	o := f.invoke()
+	rs := w.RuntimeResponses()
+	st := w.Statuses()
+	verifAssert(len(st) >= 1 && st[len(st)-1] == "413", "a response longer than the limit is refused to the runtime with 413")
+	verifAssert(o.err == nil, "the oversize invocation completes (no reset)")
+	body := string(o.wr.body)
+	verifAssert(o.wr.writes == 1 && strings.Contains(body, `"errorType":"Function.ResponseSizeTooLarge"`), "the caller receives a Function.ResponseSizeTooLarge error")
+	verifAssert(strings.Contains(body, "exceeded maximum allowed payload size (6291556 bytes)"), "the error states the maximum size")
+	verifAssert(strings.Contains(body, fmt.Sprintf("Response payload size (%d bytes)", len(rs[0]))), "the error states the actual response size")
+	verifAssert(!strings.Contains(body, rs[0]) || len(rs[0]) == 0, "nothing of the oversize payload is delivered")
+	// 2: the same environment keeps serving: a response of at most the limit (including exactly the limit) is intact
+	o2 := f.invoke()
+	rs = w.RuntimeResponses()
+	verifAssert(o2.err == nil && o2.wr.writes == 1 && string(o2.wr.body) == rs[1], "after an oversize response the same environment serves the next invocation")
+	verifAssert(w.CountPrefix("supervisor", "exec", "runtime-") == 1 && w.CountPrefix("supervisor", "kill", "") == 0, "no reset happened in between")
+	// 3: an event longer than the limit is cut at the limit, also when the runtime polls twice
+	o3 := f.invokeSized(true)
+	bodies := w.RuntimeBodies()
+	verifAssert(o3.err == nil, "invocation with an oversize event completes")
+	verifAssert(len(bodies) == 4, "the event was delivered on both polls")
+	verifAssert(bodies[2] == string(o3.ev[:limit]), "an event longer than the limit is cut at the limit")
+	verifAssert(bodies[3] == bodies[2], "a repeated poll returns the same (cut) event")
+	verifAssert(w.Count("", "second-next-differs", "") == 0, "a repeated poll returns the same invocation")
 	verifReach("scenario-done")
 }
